@@ -3,6 +3,9 @@
    together with what the RULE demands for them. *)
 EXTENDS Export, Json, CSV, IOUtils
 
+CONSTANT Shape(_)   \* a prefix-closed restriction of the library's shape for the cfg (NoShape = none); the argument is unused
+NoShape(x) == TRUE
+
 Vis4 == {"published", "public", "protected", "private"}
 Both == {"published", "public"}
 NoMembers == <<{}, {}>>
@@ -48,7 +51,10 @@ TopsAll == {Top(k, r, n) : k \in TopKinds, r \in BOOLEAN, n \in BOOLEAN}
 TopSrcs == {"cwd", "I", "S"}
 
 \* --- aliases: a signature reaches a class through typedef / using aliases (one or two levels, wrappers inside)
-AliasForms == {<<"typedef", "plain">>, <<"using", "plain">>, <<"typedef", "cptr">>, <<"typedef", "cref">>, <<"typedef", "rref">>}
+AliasForms == {<<"typedef", "plain">>, <<"using", "plain">>, <<"typedef", "cptr">>, <<"typedef", "rref">>}
+AliasFormsF == {<<"typedef", "plain">>, <<"typedef", "cptr">>}
+PubOnly == {"published"}
+IgnInv == {"ignoreinvolved"}
 AliasFormsT == {<<f, w>> : f \in {"typedef", "using"}, w \in {"plain", "ptr", "cptr", "cref", "rref"}}
 UseA(k, l, uw) == [Mem(k, l) EXCEPT !.uw = uw]
 AliasMembers == <<{Mem("meth", "published")} \cup {UseA(k, "published", uw) : k \in {"usea", "reta"}, uw \in {"ptr", "cref", "val"}}, {}>>
@@ -73,11 +79,44 @@ M32 == <<3, 2>>
 M22 == <<2, 2>>
 M00 == <<0, 0>>
 M10 == <<1, 0>>
+M31 == <<3, 1>>
 
 None == {}
 NoComment == {""}
 NestCS == {"class", "struct"}
-AliasLabels == {"published", "public", "private"}
+AliasLabels == {"public", "private"}
+\* shape of the alias families (prefix-closed, so TLC prunes early): class 1 is the aliased class T with at most one
+\* plain method; then the aliases; then either one user class (nested aliases and one member that uses an alias) or one
+\* namespace-scope function that uses an alias; with a second file, T lives there and everything else in file 1
+UseKinds == {"usea", "reta"}
+TopAliasesBeforeUser ==
+  \A a \in 1..NA : \A k \in 1..Len(lib.order) : \A k2 \in 1..Len(lib.order) :
+    (lib.order[k] = [t |-> "a", id |-> a] /\ lib.order[k2] = [t |-> "c", id |-> 2]) => (k < k2)
+UserShape ==
+  /\ Cls(2).file = 1
+  /\ NT = 0
+  /\ \A i \in 1..NM(2) : (Mbr(2, i).k \in UseKinds \cup {"alias"})
+  /\ Cardinality({j \in 1..NM(2) : Mbr(2, j).k \in UseKinds}) <= 1
+  /\ \A i \in 1..NM(2) : (Mbr(2, i).k \in UseKinds => i = NM(2))
+  /\ TopAliasesBeforeUser
+AliasDone ==
+  /\ NA >= 1
+  /\ NT = 1 \/ (NC = 2 /\ \E i \in 1..NM(2) : Mbr(2, i).k \in UseKinds)
+  /\ (lib.cmd.c = "ignoreinvolved" => lib.cmd.k = 1)
+AliasShape(x) ==
+  /\ NC >= 1 => (NM(1) <= 1 /\ (\A i \in 1..NM(1) : Mbr(1, i).k = "meth"))
+  /\ (NF = 2 /\ NC >= 1) => Cls(1).file = 2
+  /\ \A a \in 1..NA : (NC >= 1 /\ (Ali(a).scope = 0 => Ali(a).file = 1) /\ Ali(a).scope # 1)
+  /\ \A t \in 1..NT : (NA >= 1 /\ NC = 1 /\ lib.tops[t].file = 1)
+  /\ NC >= 2 => UserShape
+  /\ done => AliasDone
+\* aliasnest: one class; members in order: nested class, nested alias of it, a method that uses the alias
+AliasNestShape(x) ==
+  /\ (NC >= 1 /\ NM(1) >= 1) => Mbr(1, 1).k = "nclass"
+  /\ (NC >= 1 /\ NM(1) >= 2) => (Mbr(1, 2).k = "alias" /\ Ali(Mbr(1, 2).ra).tt = "cls" /\ Ali(Mbr(1, 2).ra).tc = 2)
+  /\ (NC >= 1 /\ NM(1) >= 3) => (Mbr(1, 3).k = "usea" /\ Mbr(1, 3).lab = "published")
+  /\ \A a \in 1..NA : Ali(a).scope = 1
+  /\ done => (NM(1) = 3 /\ (lib.cmd.c = "ignoreinvolved" => lib.cmd.k = 2))
 DumpFile == IF "VERIF_DUMP" \in DOMAIN IOEnv THEN IOEnv.VERIF_DUMP ELSE ""
 
 \* references to a nested class of another class must be accessible C++ (public nested type)
@@ -92,15 +131,15 @@ WFRefs ==
   /\ \A c \in 1..NC : (done /\ Cls(c).ns /\ Cls(c).outer = 0 /\ lib.minvis = "public") => AnyVisibleMember(c)
   \* how an alias is used agrees with what it names: a chain that already carries a pointer / reference is used by
   \* value, a plain chain by pointer or const reference; at most one wrapper per chain; "reta" returns by pointer/value
-  /\ \A a \in 1..NA : Cardinality(ChainWraps(a)) <= 1 /\ (Ali(a).tt = "alias" /\ Ali(a).wrap # "plain" => ChainWraps(Ali(a).tc) = {})
+  /\ \A a \in 1..NA : (Cardinality(ChainWraps(a)) <= 1 /\ ((Ali(a).tt = "alias" /\ Ali(a).wrap # "plain") => ChainWraps(Ali(a).tc) = {}))
   /\ \A c \in 1..NC : \A i \in 1..NM(c) : LET m == Mbr(c, i) IN
-       NeedsAlias(m.k) => /\ (m.uw = "val") <=> (ChainWraps(m.ra) # {})
-                          /\ (m.k = "reta" => m.uw # "cref" /\ "rref" \notin ChainWraps(m.ra))
-                          /\ TargetClass(m.ra) # c
+       NeedsAlias(m.k) => (/\ ((m.uw = "val") <=> (ChainWraps(m.ra) # {}))
+                           /\ (m.k = "reta" => (m.uw # "cref" /\ "rref" \notin ChainWraps(m.ra)))
+                           /\ TargetClass(m.ra) # c)
   /\ \A t \in 1..NT : LET d == lib.tops[t] IN NeedsAlias(d.k) => ((d.uw = "val") <=> (ChainWraps(d.ra) # {}))
   \* a namespace-scope alias names a namespace-scope class; nested aliases carry an explicit access label
-  /\ \A a \in 1..NA : Ali(a).scope = 0 => Cls(TargetClass(a)).outer = 0 /\ ~Cls(TargetClass(a)).ns
-  /\ \A a \in 1..NA : Ali(a).scope # 0 => Mbr(Ali(a).scope, Ali(a).at).lab \in AliasLabels
+  /\ \A a \in 1..NA : (Ali(a).scope = 0 => (Cls(TargetClass(a)).outer = 0 /\ ~Cls(TargetClass(a)).ns))
+  /\ \A a \in 1..NA : (Ali(a).scope # 0 => Mbr(Ali(a).scope, Ali(a).at).lab \in AliasLabels)
   \* one destructor, one get_class_type, one constructor signature per class (valid C++)
   /\ \A c \in 1..NC : \A k \in {"dtor", "gct", "ctor"} : Cardinality({i \in 1..NM(c) : Mbr(c, i).k = k}) <= 1
 
@@ -113,6 +152,7 @@ Expected ==
 
 DumpConstraint ==
   /\ WFRefs
+  /\ Shape(0)
   /\ IF done /\ phase = "build" /\ DumpFile # ""
        THEN CSVWrite("%1$s", <<ToJson([lib |-> lib, exp |-> Expected])>>, DumpFile)
        ELSE TRUE
